@@ -1,4 +1,237 @@
-// Kani harnesses mounted inside src/robotics.rs (child module: sees private items)
+// Kani harnesses mounted inside src/robotics.rs (child module; only with `--features robotics`).
+//
+// C19: the expression evaluator is total, honours standard precedence and units, converts degrees
+// exactly once, and bounds its recursion.
+//
+// Shape: expression *templates* with concrete constant operands (pi, tau - no decimal parsing, so
+// libcore's dec2flt is not on the path) and SYMBOLIC operators / signs / unit functions / tags.
+// IEEE-754 arithmetic on constants is folded by CBMC, the parser's control flow runs on symbolic
+// bytes. Oracle: the same operations applied in the order the grammar prescribes.
+use super::*;
+use crate::verif_common::stdlite;
+
+fn any_op() -> u8 {
+    let k: u8 = kani::any();
+    match k % 4 {
+        0 => b'+',
+        1 => b'-',
+        2 => b'*',
+        _ => b'/',
+    }
+}
+
+fn apply(op: u8, a: f64, b: f64) -> f64 {
+    match op {
+        b'+' => a + b,
+        b'-' => a - b,
+        b'*' => a * b,
+        _ => a / b,
+    }
+}
+
+fn is_mul(op: u8) -> bool {
+    op == b'*' || op == b'/'
+}
+
+fn same_f64(a: f64, b: f64) -> bool {
+    (a.is_nan() && b.is_nan()) || a.to_bits() == b.to_bits()
+}
+
+fn eval(s: &[u8], tag: SfTag) -> Result<f64, Error> {
+    let st = match core::str::from_utf8(s) {
+        Ok(x) => x,
+        Err(_) => {
+            kani::assume(false);
+            ""
+        }
+    };
+    parse_yaml12_float_angle_converting::<f64>(st, Location::UNKNOWN, tag)
+}
+
+const TAU: f64 = 2.0 * PI;
+
+// ------------------------------------------------------------------------------------------
+// Precedence: `pi o1 tau o2 pi` for all 16 operator pairs, optional leading unary minus.
+// ------------------------------------------------------------------------------------------
+#[kani::proof]
+#[kani::stub(core::str::validations::run_utf8_validation, stdlite::run_utf8_validation)]
+#[kani::unwind(16)]
+fn c19_precedence() {
+    let o1 = any_op();
+    let o2 = any_op();
+    let neg: bool = kani::any();
+    // "-pi?tau?pi" / " pi?tau?pi"
+    let s: [u8; 10] = [if neg { b'-' } else { b' ' }, b'p', b'i', o1, b't', b'a', b'u', o2, b'p', b'i'];
+    let a = if neg { -PI } else { PI };
+    let want = if is_mul(o2) && !is_mul(o1) {
+        apply(o1, a, apply(o2, TAU, PI))
+    } else {
+        apply(o2, apply(o1, a, TAU), PI)
+    };
+    match eval(&s, SfTag::None) {
+        Ok(v) => assert!(same_f64(v, want), "expression value differs from IEEE-754 evaluation with standard precedence"),
+        Err(_) => assert!(false, "well-formed expression rejected"),
+    }
+    kani::cover!(is_mul(o2) && !is_mul(o1), "right operator binds tighter");
+}
+
+// ------------------------------------------------------------------------------------------
+// Parentheses override precedence: `(pi o1 tau) o2 pi` and `pi o1 (tau o2 pi)`.
+// ------------------------------------------------------------------------------------------
+#[kani::proof]
+#[kani::stub(core::str::validations::run_utf8_validation, stdlite::run_utf8_validation)]
+#[kani::unwind(16)]
+fn c19_parentheses() {
+    let o1 = any_op();
+    let o2 = any_op();
+    let left: bool = kani::any();
+    let s: [u8; 11] = if left {
+        [b'(', b'p', b'i', o1, b't', b'a', b'u', b')', o2, b'p', b'i']
+    } else {
+        [b'p', b'i', o1, b'(', b't', b'a', b'u', o2, b'p', b'i', b')']
+    };
+    let want = if left {
+        apply(o2, apply(o1, PI, TAU), PI)
+    } else {
+        apply(o1, PI, apply(o2, TAU, PI))
+    };
+    match eval(&s, SfTag::None) {
+        Ok(v) => assert!(same_f64(v, want), "parenthesised expression evaluated in the wrong order"),
+        Err(_) => assert!(false, "well-formed expression rejected"),
+    }
+    kani::cover!(!left, "right-nested");
+}
+
+// ------------------------------------------------------------------------------------------
+// Units: `F(pi) o G(tau)` with F, G in {deg, rad} symbolic, under a symbolic tag.
+// deg() converts exactly once; unitized input overrides the tag; a bare term next to a unitized
+// one under !degrees is rejected; without unit functions !degrees converts the whole value once.
+// ------------------------------------------------------------------------------------------
+fn any_tag() -> SfTag {
+    let k: u8 = kani::any();
+    match k % 3 {
+        0 => SfTag::None,
+        1 => SfTag::Degrees,
+        _ => SfTag::Radians,
+    }
+}
+
+#[kani::proof]
+#[kani::stub(core::str::validations::run_utf8_validation, stdlite::run_utf8_validation)]
+#[kani::unwind(20)]
+fn c19_units() {
+    let o = any_op();
+    let f_deg: bool = kani::any();
+    let g_deg: bool = kani::any();
+    let tag = any_tag();
+    let f: [u8; 3] = if f_deg { *b"deg" } else { *b"rad" };
+    let g: [u8; 3] = if g_deg { *b"deg" } else { *b"rad" };
+    // "FFF(pi)oGGG(tau)"
+    let s: [u8; 16] = [f[0], f[1], f[2], b'(', b'p', b'i', b')', o, g[0], g[1], g[2], b'(', b't', b'a', b'u', b')'];
+    let a = if f_deg { PI * DEG2RAD } else { PI };
+    let b = if g_deg { TAU * DEG2RAD } else { TAU };
+    let want = apply(o, a, b);
+    match eval(&s, tag) {
+        Ok(v) => assert!(same_f64(v, want), "unit conversion applied zero or several times"),
+        Err(_) => assert!(false, "fully unitized expression rejected"),
+    }
+    kani::cover!(f_deg && !g_deg && matches!(tag, SfTag::Degrees), "mixed units under !degrees, all explicit");
+}
+
+#[kani::proof]
+#[kani::stub(core::str::validations::run_utf8_validation, stdlite::run_utf8_validation)]
+#[kani::unwind(20)]
+fn c19_units_mixed_with_bare() {
+    let o = any_op();
+    let f_deg: bool = kani::any();
+    let tag = any_tag();
+    let f: [u8; 3] = if f_deg { *b"deg" } else { *b"rad" };
+    // "FFF(pi)otau"
+    let s: [u8; 11] = [f[0], f[1], f[2], b'(', b'p', b'i', b')', o, b't', b'a', b'u'];
+    let a = if f_deg { PI * DEG2RAD } else { PI };
+    let r = eval(&s, tag);
+    if matches!(tag, SfTag::Degrees) {
+        assert!(r.is_err(), "bare term mixed with a unitized one under !degrees must be rejected");
+    } else {
+        match r {
+            Ok(v) => assert!(same_f64(v, apply(o, a, TAU)), "value differs"),
+            Err(_) => assert!(false, "expression rejected"),
+        }
+    }
+    kani::cover!(matches!(tag, SfTag::Degrees), "ambiguous mix rejected");
+}
+
+#[kani::proof]
+#[kani::stub(core::str::validations::run_utf8_validation, stdlite::run_utf8_validation)]
+#[kani::unwind(16)]
+fn c19_tag_only() {
+    let o = any_op();
+    let tag = any_tag();
+    let s: [u8; 6] = [b'p', b'i', o, b't', b'a', b'u'];
+    let base = apply(o, PI, TAU);
+    let want = if matches!(tag, SfTag::Degrees) { base * DEG2RAD } else { base };
+    match eval(&s, tag) {
+        Ok(v) => assert!(same_f64(v, want), "tag-based conversion not applied exactly once to the whole value"),
+        Err(_) => assert!(false, "expression rejected"),
+    }
+    kani::cover!(matches!(tag, SfTag::Degrees), "degrees tag");
+}
+
+// ------------------------------------------------------------------------------------------
+// Recursion guard: enter() admits depth < 256 only; never overflows; exit() restores.
+// ------------------------------------------------------------------------------------------
+#[kani::proof]
+#[kani::stub(core::str::validations::run_utf8_validation, stdlite::run_utf8_validation)]
+fn c19_depth_guard() {
+    let mut p = Parser::new("", Location::UNKNOWN, SfTag::None);
+    let d0: u32 = kani::any();
+    kani::assume(d0 <= MAX_EXPR_DEPTH);
+    p.depth = d0;
+    let r = p.enter();
+    if d0 >= MAX_EXPR_DEPTH {
+        assert!(r.is_err() && p.depth == d0, "nesting beyond the limit admitted");
+    } else {
+        assert!(r.is_ok() && p.depth == d0 + 1);
+        p.exit();
+        assert!(p.depth == d0);
+    }
+    kani::cover!(d0 == MAX_EXPR_DEPTH, "limit reached");
+    std::mem::forget(r);
+}
+
+// ------------------------------------------------------------------------------------------
+// Totality on short arbitrary inputs over the expression alphabet without digits (no decimal
+// parsing on the path): every input yields Ok or Err - no panic, index error, overflow, and the
+// recursion is bounded (unwinding assertions).
+// ------------------------------------------------------------------------------------------
+fn total_n<const N: usize>() {
+    let a: [u8; N] = kani::any();
+    let mut i = 0;
+    while i < N {
+        let c = a[i];
+        let ok = matches!(c, b'p' | b'i' | b't' | b'a' | b'u' | b'd' | b'e' | b'g' | b'r' | b'n' | b'f' | b'(' | b')' | b'+' | b'-' | b'*' | b'/' | b' ' | b'.' | b':' | b'_');
+        kani::assume(ok);
+        i += 1;
+    }
+    let r = eval(&a, any_tag());
+    kani::cover!(r.is_ok(), "some input evaluates");
+    kani::cover!(r.is_err(), "some input is rejected");
+    std::mem::forget(r);
+}
+
+#[kani::proof]
+#[kani::stub(core::str::validations::run_utf8_validation, stdlite::run_utf8_validation)]
+#[kani::unwind(10)]
+fn c19_total_3() {
+    total_n::<3>()
+}
+
+#[kani::proof]
+#[kani::stub(core::str::validations::run_utf8_validation, stdlite::run_utf8_validation)]
+#[kani::unwind(12)]
+fn c19_total_4() {
+    total_n::<4>()
+}
 
 // concrete-playback slot: bin/check writes the solver counterexample here as a unit test for native replay
 include!("/verif/.build/playback/robotics_pb.rs");
